@@ -22,6 +22,9 @@ W: generator programs (conservative features of C03) whose shadow assertions are
    because of a shadow test there is no regular file with any execute bit at the path.  The empty and the text
    file (mode 0644) are the controls against over-claiming: whether nanoc keeps or removes them is recorded, never
    judged.  Counter-control: with all assertions true a stale executable at the path is replaced by the new build.
+   Builtin coverage (both tiers, full list): for every documented pure builtin a function whose BODY calls it with a
+   false assertion in its block, a block that ITSELF calls it next to a false assertion, the all-true variants (must
+   build) and a function calling it WITHOUT a block (must be reported); expectations from a hand-written table.
 """
 import copy
 import os
@@ -362,6 +365,149 @@ def write_witnesses():
 
 
 # =====================================================================================================
+# builtin coverage: every documented pure builtin (docs/STDLIB.md, src/builtins_registry.c) inside the tested
+# function and inside the shadow block.  T(p) comes from this hand-written table: the arguments are chosen so that
+# the result is exactly representable and the assertions do not depend on how floats are formatted.
+# Not covered: I/O (print/println/assert themselves are everywhere), OS / file / directory / path / process
+# functions and FFI modules, Result<T,E> helpers and the higher-order filter/map/reduce.
+# Each entry: (name, result type, [statements before the value], value expression, true condition, false condition);
+# {x} is the expression under test.
+# =====================================================================================================
+def _f(v, far):
+    return ("(== {x} %s)" % v, "(> {x} %s)" % far)
+
+
+BUILTINS = [
+    ("abs", "int", [], "(abs -7)", "(== {x} 7)", "(== {x} -7)"),
+    ("min", "int", [], "(min 3 9)", "(== {x} 3)", "(== {x} 9)"),
+    ("max", "int", [], "(max 3 9)", "(== {x} 9)", "(< {x} 4)"),
+    ("sqrt", "float", [], "(sqrt 16.0)") + _f("4.0", "100.0"),
+    ("pow", "float", [], "(pow 2.0 3.0)") + _f("8.0", "100.0"),
+    ("floor", "float", [], "(floor 2.5)") + _f("2.0", "100.0"),
+    ("ceil", "float", [], "(ceil 2.5)") + _f("3.0", "100.0"),
+    ("round", "float", [], "(round 2.75)") + _f("3.0", "100.0"),
+    ("sin", "float", [], "(sin 0.0)") + _f("0.0", "100.0"),
+    ("cos", "float", [], "(cos 0.0)") + _f("1.0", "100.0"),
+    ("tan", "float", [], "(tan 0.0)") + _f("0.0", "100.0"),
+    ("atan2", "float", [], "(atan2 0.0 1.0)") + _f("0.0", "100.0"),
+    ("asin", "float", [], "(asin 0.0)") + _f("0.0", "100.0"),
+    ("acos", "float", [], "(acos 1.0)") + _f("0.0", "100.0"),
+    ("atan", "float", [], "(atan 0.0)") + _f("0.0", "100.0"),
+    ("log", "float", [], "(log 1.0)") + _f("0.0", "100.0"),
+    ("log2", "float", [], "(log2 8.0)") + _f("3.0", "100.0"),
+    ("log10", "float", [], "(log10 1000.0)") + _f("3.0", "100.0"),
+    ("exp", "float", [], "(exp 0.0)") + _f("1.0", "100.0"),
+    ("fmod", "float", [], "(fmod 7.0 4.0)") + _f("3.0", "100.0"),
+    ("sinh", "float", [], "(sinh 0.0)") + _f("0.0", "100.0"),
+    ("cosh", "float", [], "(cosh 0.0)") + _f("1.0", "100.0"),
+    ("tanh", "float", [], "(tanh 0.0)") + _f("0.0", "100.0"),
+    ("asinh", "float", [], "(asinh 0.0)") + _f("0.0", "100.0"),
+    ("acosh", "float", [], "(acosh 1.0)") + _f("0.0", "100.0"),
+    ("atanh", "float", [], "(atanh 0.0)") + _f("0.0", "100.0"),
+    ("cbrt", "float", [], "(cbrt 27.0)") + ("(and (> {x} 2.999) (< {x} 3.001))", "(> {x} 100.0)"),
+    ("hypot", "float", [], "(hypot 3.0 4.0)") + _f("5.0", "100.0"),
+    ("copysign", "float", [], "(copysign 2.0 -1.0)") + _f("-2.0", "100.0"),
+    ("fmax", "float", [], "(fmax 2.0 3.0)") + _f("3.0", "100.0"),
+    ("fmin", "float", [], "(fmin 2.0 3.0)") + _f("2.0", "100.0"),
+    ("fabs", "float", [], "(fabs -2.5)") + _f("2.5", "100.0"),
+    ("char_to_string", "string", [], "(char_to_string 65)", '(== {x} "A")', '(== {x} "a")'),
+    ("cast_int", "int", [], "(cast_int 3.75)", "(== {x} 3)", "(== {x} 4)"),
+    ("cast_float", "float", [], "(cast_float 2)") + _f("2.0", "100.0"),
+    ("cast_bool", "bool", [], "(cast_bool 1)", "(== {x} true)", "(== {x} false)"),
+    ("cast_string", "string", [], "(cast_string 42)", '(== {x} "42")', '(== {x} "24")'),
+    ("to_string", "string", [], "(to_string 42)", '(== {x} "42")', '(== {x} "24")'),
+    ("int_to_string", "string", [], "(int_to_string -15)", '(== {x} "-15")', '(== {x} "15")'),
+    ("float_to_string", "string", [], "(float_to_string 2.5)", "(> (str_length {x}) 0)", "(== (str_length {x}) 0)"),
+    ("bool_to_string", "string", [], "(bool_to_string true)", '(== {x} "true")', '(== {x} "false")'),
+    ("str_length", "int", [], '(str_length "hello")', "(== {x} 5)", "(== {x} 4)"),
+    ("str_concat", "string", [], '(str_concat "ab" "cd")', '(== {x} "abcd")', '(== {x} "cdab")'),
+    ("str_substring", "string", [], '(str_substring "hello" 1 3)', '(== {x} "ell")', '(== {x} "hel")'),
+    ("str_contains", "bool", [], '(str_contains "hello" "ell")', "(== {x} true)", "(== {x} false)"),
+    ("str_equals", "bool", [], '(str_equals "nano" "nano")', "(== {x} true)", "(== {x} false)"),
+    ("char_at", "int", [], '(char_at "abc" 1)', "(== {x} 98)", "(== {x} 97)"),
+    ("string_from_char", "string", [], "(string_from_char 65)", '(== {x} "A")', '(== {x} "a")'),
+    ("string_to_int", "int", [], '(string_to_int "42")', "(== {x} 42)", "(== {x} 24)"),
+    ("string_to_float", "float", [], '(string_to_float "2.5")') + _f("2.5", "100.0"),
+    ("is_digit", "bool", [], "(is_digit 53)", "(== {x} true)", "(== {x} false)"),
+    ("is_alpha", "bool", [], "(is_alpha 65)", "(== {x} true)", "(== {x} false)"),
+    ("is_alnum", "bool", [], "(is_alnum 48)", "(== {x} true)", "(== {x} false)"),
+    ("is_space", "bool", [], "(is_space 32)", "(== {x} true)", "(== {x} false)"),
+    ("is_whitespace", "bool", [], "(is_whitespace 32)", "(== {x} true)", "(== {x} false)"),
+    ("is_upper", "bool", [], "(is_upper 65)", "(== {x} true)", "(== {x} false)"),
+    ("is_lower", "bool", [], "(is_lower 65)", "(== {x} false)", "(== {x} true)"),
+    ("digit_value", "int", [], "(digit_value 55)", "(== {x} 7)", "(== {x} 55)"),
+    ("char_to_lower", "int", [], "(char_to_lower 65)", "(== {x} 97)", "(== {x} 65)"),
+    ("char_to_upper", "int", [], "(char_to_upper 97)", "(== {x} 65)", "(== {x} 97)"),
+    ("array_length", "int", ["let arr: array<int> = [4, 5, 6]"], "(array_length arr)", "(== {x} 3)", "(== {x} 2)"),
+    ("at", "int", ["let arr: array<int> = [4, 5, 6]"], "(at arr 1)", "(== {x} 5)", "(== {x} 4)"),
+    ("array_new", "int", ["let arr: array<int> = (array_new 3 7)"], "(+ (array_length arr) (at arr 2))", "(== {x} 10)", "(== {x} 3)"),
+    ("array_set", "int", ["let mut arr: array<int> = [1, 2, 3]", "(array_set arr 0 9)"], "(at arr 0)", "(== {x} 9)", "(== {x} 1)"),
+    # (the evaluator only grows arrays that started as `[]`: its handling of array literals is C03's census cell array_mut)
+    ("array_push", "int", ["let mut arr: array<int> = []", "set arr (array_push arr 8)", "set arr (array_push arr 9)"], "(+ (array_length arr) (at arr 1))", "(== {x} 11)", "(== {x} 2)"),
+    ("array_pop", "int", ["let mut arr: array<int> = []", "set arr (array_push arr 5)", "set arr (array_push arr 6)"], "(array_pop arr)", "(== {x} 6)", "(== {x} 5)"),
+    ("array_remove_at", "int", ["let mut arr: array<int> = [1, 2, 3]", "(array_remove_at arr 0)"], "(+ (array_length arr) (at arr 0))", "(== {x} 4)", "(== {x} 3)"),
+    ("array_slice", "int", ["let arr: array<int> = [1, 2, 3, 4]", "let sl: array<int> = (array_slice arr 1 3)"], "(at sl 0)", "(== {x} 2)", "(== {x} 1)"),
+    ("array_concat", "int", ["let a1: array<int> = [1, 2]", "let a2: array<int> = [3]", "let cc: array<int> = (array_concat a1 a2)"], "(array_length cc)", "(== {x} 3)", "(== {x} 2)"),
+    ("filter", "int", ["let arr: array<int> = [1, 2, 3, 4]", "let ev: array<int> = (filter arr is_even)"], "(array_length ev)", "(== {x} 2)", "(== {x} 4)",
+     ["fn is_even(n: int) -> bool {", "    return (== (% n 2) 0)", "}", "shadow is_even {", "    assert (is_even 2)", "}"]),
+    ("map", "int", ["let arr: array<int> = [1, 2, 3]", "let sq: array<int> = (map arr square)"], "(at sq 2)", "(== {x} 9)", "(== {x} 3)",
+     ["fn square(n: int) -> int {", "    return (* n n)", "}", "shadow square {", "    assert (== (square 3) 9)", "}"]),
+    ("reduce", "int", ["let arr: array<int> = [1, 2, 3, 4]"], "(reduce arr 0 add2)", "(== {x} 10)", "(== {x} 0)",
+     ["fn add2(a: int, b: int) -> int {", "    return (+ a b)", "}", "shadow add2 {", "    assert (== (add2 1 2) 3)", "}"]),
+    ("list_int_new+push+get", "int", ["let mut li: List<int> = (list_int_new)", "(list_int_push li 10)", "(list_int_push li 20)"], "(list_int_get li 1)", "(== {x} 20)", "(== {x} 10)"),
+    ("list_int_length", "int", ["let mut li: List<int> = (list_int_new)", "(list_int_push li 10)"], "(list_int_length li)", "(== {x} 1)", "(== {x} 0)"),
+    ("list_int_pop", "int", ["let mut li: List<int> = (list_int_new)", "(list_int_push li 10)", "(list_int_push li 30)"], "(list_int_pop li)", "(== {x} 30)", "(== {x} 10)"),
+    ("range", "int", ["let mut acc: int = 0", "for i in (range 0 4) {", "    set acc (+ acc i)", "}"], "acc", "(== {x} 6)", "(== {x} 10)"),
+    ("map_new+map_put+map_get", "int", ["let hm: HashMap<string, int> = (map_new)", '(map_put hm "a" 11)'], '(map_get hm "a")', "(== {x} 11)", "(== {x} 0)"),
+    ("map_has", "bool", ["let hm: HashMap<string, int> = (map_new)", '(map_put hm "a" 11)'], '(map_has hm "a")', "(== {x} true)", "(== {x} false)"),
+    ("map_length", "int", ["let hm: HashMap<string, int> = (map_new)", '(map_put hm "a" 1)', '(map_put hm "b" 2)'], "(map_length hm)", "(== {x} 2)", "(== {x} 0)"),
+    ("map_remove", "int", ["let hm: HashMap<string, int> = (map_new)", '(map_put hm "a" 1)', '(map_put hm "b" 2)', '(map_remove hm "a")'], "(map_length hm)", "(== {x} 1)", "(== {x} 2)"),
+    ("bytes_from_string+bstring_length", "int", ['let bs: bstring = (bytes_from_string "abc")'], "(bstring_length bs)", "(== {x} 3)", "(== {x} 0)"),
+    ("string_from_bytes", "string", ['let bs: bstring = (bytes_from_string "hi")'], "(string_from_bytes bs)", '(== {x} "hi")', '(== {x} "ih")'),
+]
+
+
+def builtin_programs(entry):
+    """the four programs of one builtin: {variant: (text, T(p), functions without a shadow block)}"""
+    name, ty, pre, expr, tcond, fcond = entry[:6]
+    extra = list(entry[6]) if len(entry) > 6 else []
+
+    def fn_body(fname, with_shadow, cond):
+        out = ["fn %s() -> %s {" % (fname, ty)]
+        out += ["    " + l for l in pre]
+        out.append("    return %s" % expr)
+        out.append("}")
+        if with_shadow:
+            out += ["shadow %s {" % fname, "    assert %s" % cond.format(x="(%s)" % fname), "}"]
+        return out
+
+    def fn_ident(cond):
+        out = ["fn ident(v: %s) -> %s {" % (ty, ty), "    return v", "}", "shadow ident {"]
+        out += ["    " + l for l in pre]
+        out.append("    let e: %s = %s" % (ty, expr))
+        out.append("    assert %s" % cond.format(x="(ident e)"))
+        out.append("}")
+        return out
+
+    def main(calls):
+        out = ["fn main() -> int {"]
+        for c in calls:
+            out.append("    (println %s)" % c)
+        out += ["    return 0", "}", "shadow main {", "    assert true", "}"]
+        return out
+    lit = {"int": "1", "float": "1.5", "bool": "true", "string": '"s"'}[ty]
+    progs = {
+        "body-false": ("\n".join(extra + fn_body("tested", True, fcond) + main(["(tested)"])) + "\n", {"tested": [False], "main": [True]}, []),
+        "shadow-false": ("\n".join(extra + fn_ident(fcond) + main(["(ident %s)" % lit])) + "\n", {"ident": [False], "main": [True]}, []),
+        "all-true": ("\n".join(extra + fn_body("tested", True, tcond) + fn_ident(tcond) + main(["(tested)", "(ident %s)" % lit])) + "\n",
+                     {"tested": [True], "ident": [True], "main": [True]}, []),
+        "no-shadow": ("\n".join(extra + fn_body("tested", False, tcond) + ["fn plain(v: int) -> int {", "    return (+ v 1)", "}"] + main(["(tested)", "(plain 1)"])) + "\n",
+                      {"main": [True]}, ["tested", "plain"]),
+    }
+    return progs
+
+
+# =====================================================================================================
 # observation and oracle
 # =====================================================================================================
 class Case:
@@ -645,6 +791,59 @@ def run(ctx):
                     full = "gate-open|%s" % c.kind
                 ctx.violation(full, "%s: %s" % (c.label, msg), files)
 
+        # ---------------- builtin coverage ---------------------------------------------------------------------
+        bjobs = []
+        for entry in BUILTINS:
+            for variant, (text, T, missing) in builtin_programs(entry).items():
+                bc = Case(-1, "builtin-%s-%s" % (re.sub(r"\W+", "_", entry[0]), variant), {"main.nano": text}, T, [], missing,
+                          {"classes": [("plain", "builtin:" + variant, "only", entry[1])], "nfalse_intended": 0, "removed": list(missing)}, frozenset(["builtin"]))
+                bc.kind = "builtin"
+                bc.builtin = entry[0]
+                bc.variant = variant
+                bjobs.append(bc)
+        bres = {}
+        for c, r, exists in pmap(do, bjobs):
+            bres.setdefault(c.builtin, {})[c.variant] = (c, r, exists)
+        builtin_table = {}
+        builtins_judged = 0
+        for entry in BUILTINS:
+            name = entry[0]
+            row = {}
+            c0, r0, e0 = bres[name]["all-true"]
+            o0, v0 = judge(c0, r0, e0)
+            if r0.timeout:
+                builtin_table[name] = "watchdog"
+                continue
+            if o0 != "built":
+                if o0 == "all-true-refused":
+                    row["all-true"] = o0
+                    ctx.violation("builtin|%s|all-true-refused" % name, "builtin %s: every assertion of the all-true program holds by the table, nanoc says %s" % (name, FAILED_RE.findall(r0.text())),
+                                  {"main.nano": c0.files["main.nano"], "nanoc.stdout": r0.out, "nanoc.stderr": r0.err})
+                    builtin_table[name] = row
+                else:
+                    # the pipeline does not support this builtin (type checker / C compiler): C04's subject, not the gate's
+                    builtin_table[name] = "not-usable-here:" + o0
+                continue
+            row["all-true"] = "built"
+            builtins_judged += 1
+            for variant in ("body-false", "shadow-false", "no-shadow"):
+                c, r, exists = bres[name][variant]
+                if r.timeout:
+                    row[variant] = "watchdog"
+                    continue
+                o, viol = judge(c, r, exists)
+                row[variant] = o
+                hist["builtin:" + o] = hist.get("builtin:" + o, 0) + 1
+                for key, msg in viol:
+                    ctx.violation("builtin|%s|%s|%s" % (name, variant, key), "builtin %s, %s: %s" % (name, variant, msg),
+                                  {"main.nano": c.files["main.nano"], "nanoc.stdout": r.out, "nanoc.stderr": r.err,
+                                   "expected.txt": "T(p) = %r\nfunctions without a shadow block: %r\n" % (c.T, c.missing)})
+                if o.startswith("skip:"):
+                    # the same program with the other constant built: a refusal for another reason is not expected
+                    ctx.violation("builtin|%s|%s|refused-for-another-reason" % (name, variant), "builtin %s, %s: %s" % (name, variant, o),
+                                  {"main.nano": c.files["main.nano"], "nanoc.stdout": r.out, "nanoc.stderr": r.err})
+            builtin_table[name] = row
+
         # ---------------- stale file at the -o path ---------------------------------------------------------
         n_stale = ctx.n(6, 40)
         donors = [c for c, r, exists in results if c.kind == "sweep" and c.prog is not None and not r.timeout and not c.prog.modules
@@ -711,12 +910,17 @@ def run(ctx):
         n_false = sum(v for k, v in kinds.items() if k != "0")
         if not ctx.violations:
             ctx.require(sum(h["cases"] for h in stale.values()) >= len(STALE_VARIANTS) * 3, "too few stale-output scenarios ran: %s" % stale)
+            ctx.require(builtins_judged >= 40, "too few builtins could be exercised (%d): %s" % (builtins_judged, builtin_table))
+            for need in ("sqrt", "pow", "floor", "ceil", "round", "sin", "cos", "tan", "atan2", "abs", "min", "max", "str_length", "at", "array_length"):
+                ctx.require(isinstance(builtin_table.get(need), dict), "builtin %s could not be exercised: %s" % (need, builtin_table.get(need)))
             ctx.require(judged >= len(cases) * 0.7, "too few programs reached a verdict (%d of %d): %s" % (judged, len(cases), hist))
             ctx.require(hist.get("built", 0) >= n // 12 and hist.get("refused+named", 0) >= n // 6,
                         "the run did not see enough of both sides of the gate: %s" % hist)
             ctx.require(missing_checked >= n // 20, "too few functions without a shadow block were observed")
         return ctx.finish({
-            "evaluations": len(results) + sum(h["cases"] for h in stale.values()),
+            "evaluations": len(results) + sum(h["cases"] for h in stale.values()) + 4 * builtins_judged,
+            "builtin_coverage": {"builtins_listed": len(BUILTINS), "builtins_exercised": builtins_judged,
+                                 "variants": ["body-false", "shadow-false", "all-true", "no-shadow"], "exhaustive": True, "table": builtin_table},
             "distinct_nontrivial": len(shapes),
             "rule": "distinct (position classes of the falsified assertions [wrapper, block position, assertion position, value type], count class "
                     "of false assertions in T(p), number of removed shadow blocks, generator feature set) among programs that reached a verdict",
